@@ -62,6 +62,8 @@ inline size_t& simReadWindow() { static size_t w = 0; return w; }
 inline bool& simReuseObject() { static bool r = false; return r; }
 // F-NOSEEK for a whole run (plan knob "pipe_saves"): every save of the run goes to a stream that cannot seek
 inline bool& simPipeSaves() { static bool r = false; return r; }
+// plan knob "save_options": what a non-raw save of the run switches on (0 = optimize + sortBlocks, 1 = optimize only, 2 = sortBlocks only)
+inline int& simSaveOptions() { static int m = 0; return m; }
 
 struct SimIBuf : std::streambuf {
 	std::string img;
